@@ -23,42 +23,6 @@ def parseScalar (t : String) : Option DS :=
     | 's' :: rest => some (.str (String.ofList rest))
     | _ => none
 
-partial def parseExpr : List String → Option (DE × List String)
-  | [] => none
-  | t :: ts =>
-    let un (f : DE → DE) := (parseExpr ts).map (fun (e, r) => (f e, r))
-    let bin (f : DE → DE → DE) :=
-      match parseExpr ts with
-      | some (a, r1) => (parseExpr r1).map (fun (b, r2) => (f a b, r2))
-      | none => none
-    match t with
-    | "toBoolean" => un .toBoolean
-    | "toInteger" => un .toInteger
-    | "not" => un .not
-    | "isnull" => un .isNull
-    | "notnull" => un .isNotNull
-    | "eq" => bin .eq
-    | "lt" => bin .lt
-    | "gt" => bin .gt
-    | "and" => bin .and
-    | "or" => bin .or
-    | "add" => bin .add
-    | "mod" => bin .mod
-    | "range" => bin .range
-    | "list" =>
-      match ts with
-      | n :: rest =>
-        match n.toNat? with
-        | some k =>
-          let items := (rest.take k).filterMap parseScalar
-          if items.length == k then some (.lit (.list items), rest.drop k) else none
-        | none => none
-      | [] => none
-    | _ =>
-      match t.toList with
-      | 'v' :: name => some (.var (String.ofList name), ts)
-      | _ => (parseScalar t).map (fun s => (.lit (.s s), ts))
-
 def parseAggFn (fn : String) (e : Option DE) : Option DAgg :=
   match fn, e with
   | "count*", none => some .countStar
@@ -69,68 +33,121 @@ def parseAggFn (fn : String) (e : Option DE) : Option DAgg :=
   | "max", some e => some (.max e)
   | _, _ => none
 
-partial def parseN {β : Type} (f : List String → Option (β × List String)) : Nat → List String → Option (List β × List String)
-  | 0, ts => some ([], ts)
-  | n + 1, ts =>
-    match f ts with
-    | some (x, r) => (parseN f n r).map (fun (xs, r') => (x :: xs, r'))
+/-- parser state: the EXISTS subqueries met so far (an `existsx` expression refers to one by index) -/
+abbrev Subs := Array P
+
+mutual
+partial def parseExpr (subs : Subs) : List String → Option (DE × List String × Subs)
+  | [] => none
+  | t :: ts =>
+    let un (f : DE → DE) := (parseExpr subs ts).map (fun (e, r, s) => (f e, r, s))
+    let bin (f : DE → DE → DE) :=
+      match parseExpr subs ts with
+      | some (a, r1, s1) => (parseExpr s1 r1).map (fun (b, r2, s2) => (f a b, r2, s2))
+      | none => none
+    match t with
+    | "toBoolean" => un .toBoolean
+    | "toInteger" => un .toInteger
+    | "not" => un .not
+    | "isnull" => un .isNull
+    | "notnull" => un .isNotNull
+    | "single" => un .single
+    | "eq" => bin .eq
+    | "lt" => bin .lt
+    | "gt" => bin .gt
+    | "and" => bin .and
+    | "or" => bin .or
+    | "add" => bin .add
+    | "mod" => bin .mod
+    | "range" => bin .range
+    | "case" =>
+      match parseExpr subs ts with
+      | some (c, r1, s1) =>
+        match parseExpr s1 r1 with
+        | some (th, r2, s2) => (parseExpr s2 r2).map (fun (el, r3, s3) => (.caseWhen c th el, r3, s3))
+        | none => none
+      | none => none
+    | "existsx" =>
+      match parsePlan subs ts with
+      | some (sub, r1, s1) => some (.existsSub s1.size, r1, s1.push sub)
+      | none => none
+    | "list" =>
+      match ts with
+      | n :: rest =>
+        match n.toNat? with
+        | some k =>
+          let items := (rest.take k).filterMap parseScalar
+          if items.length == k then some (.lit (.list items), rest.drop k, subs) else none
+        | none => none
+      | [] => none
+    | _ =>
+      match t.toList with
+      | 'v' :: name => some (.var (String.ofList name), ts, subs)
+      | _ => (parseScalar t).map (fun s => (.lit (.s s), ts, subs))
+
+partial def parseN {β : Type} (f : Subs → List String → Option (β × List String × Subs)) :
+    Nat → Subs → List String → Option (List β × List String × Subs)
+  | 0, s, ts => some ([], ts, s)
+  | n + 1, s, ts =>
+    match f s ts with
+    | some (x, r, s1) => (parseN f n s1 r).map (fun (xs, r', s2) => (x :: xs, r', s2))
     | none => none
 
-partial def parsePlan : List String → Option (P × List String)
+partial def parsePlan (subs : Subs) : List String → Option (P × List String × Subs)
   | [] => none
   | t :: ts =>
     match t with
-    | "one" => some (.source [.ok []], ts)
-    | "arg" => some (.arg, ts)
+    | "one" => some (.source [.ok []], ts, subs)
+    | "arg" => some (.arg, ts, subs)
     | "unwind" =>
       match ts with
       | alias :: r0 =>
-        match parseExpr r0 with
-        | some (e, r1) => (parsePlan r1).map (fun (p, r2) => (.unwind e alias p, r2))
+        match parseExpr subs r0 with
+        | some (e, r1, s1) => (parsePlan s1 r1).map (fun (p, r2, s2) => (.unwind e alias p, r2, s2))
         | none => none
       | [] => none
     | "filter" =>
-      match parseExpr ts with
-      | some (e, r1) => (parsePlan r1).map (fun (p, r2) => (.filter e p, r2))
+      match parseExpr subs ts with
+      | some (e, r1, s1) => (parsePlan s1 r1).map (fun (p, r2, s2) => (.filter e p, r2, s2))
       | none => none
     | "exists" =>
-      match parsePlan ts with
-      | some (sub, r1) => (parsePlan r1).map (fun (p, r2) => (.filterExists sub p, r2))
+      match parsePlan subs ts with
+      | some (sub, r1, s1) => (parsePlan s1 r1).map (fun (p, r2, s2) => (.filterExists sub p, r2, s2))
       | none => none
     | "project" =>
       match ts with
       | n :: r0 =>
         match n.toNat? with
         | some k =>
-          let item : List String → Option ((String × DE) × List String) := fun xs =>
+          let item : Subs → List String → Option ((String × DE) × List String × Subs) := fun s xs =>
             match xs with
-            | a :: r => (parseExpr r).map (fun (e, r') => ((a, e), r'))
+            | a :: r => (parseExpr s r).map (fun (e, r', s') => ((a, e), r', s'))
             | [] => none
-          match parseN item k r0 with
-          | some (projs, r1) => (parsePlan r1).map (fun (p, r2) => (.project projs p, r2))
+          match parseN item k subs r0 with
+          | some (projs, r1, s1) => (parsePlan s1 r1).map (fun (p, r2, s2) => (.project projs p, r2, s2))
           | none => none
         | none => none
       | [] => none
-    | "distinct" => (parsePlan ts).map (fun (p, r) => (.distinct p, r))
+    | "distinct" => (parsePlan subs ts).map (fun (p, r, s) => (.distinct p, r, s))
     | "skip" =>
-      match parseExpr ts with
-      | some (e, r1) => (parsePlan r1).map (fun (p, r2) => (.skip e p, r2))
+      match parseExpr subs ts with
+      | some (e, r1, s1) => (parsePlan s1 r1).map (fun (p, r2, s2) => (.skip e p, r2, s2))
       | none => none
     | "limit" =>
-      match parseExpr ts with
-      | some (e, r1) => (parsePlan r1).map (fun (p, r2) => (.limit e p, r2))
+      match parseExpr subs ts with
+      | some (e, r1, s1) => (parsePlan s1 r1).map (fun (p, r2, s2) => (.limit e p, r2, s2))
       | none => none
     | "order" =>
       match ts with
       | n :: r0 =>
         match n.toNat? with
         | some k =>
-          let item : List String → Option ((DE × Bool) × List String) := fun xs =>
-            match parseExpr xs with
-            | some (e, d :: r') => some ((e, d == "asc"), r')
+          let item : Subs → List String → Option ((DE × Bool) × List String × Subs) := fun s xs =>
+            match parseExpr s xs with
+            | some (e, d :: r', s') => some ((e, d == "asc"), r', s')
             | _ => none
-          match parseN item k r0 with
-          | some (keys, r1) => (parsePlan r1).map (fun (p, r2) => (.orderBy keys p, r2))
+          match parseN item k subs r0 with
+          | some (keys, r1, s1) => (parsePlan s1 r1).map (fun (p, r2, s2) => (.orderBy keys p, r2, s2))
           | none => none
         | none => none
       | [] => none
@@ -144,16 +161,16 @@ partial def parsePlan : List String → Option (P × List String)
           | na :: r1 =>
             match na.toNat? with
             | some k =>
-              let item : List String → Option ((DAgg × String) × List String) := fun xs =>
+              let item : Subs → List String → Option ((DAgg × String) × List String × Subs) := fun s xs =>
                 match xs with
-                | "count*" :: alias :: r => some ((.countStar, alias), r)
+                | "count*" :: alias :: r => some ((.countStar, alias), r, s)
                 | fn :: r =>
-                  match parseExpr r with
-                  | some (e, alias :: r') => (parseAggFn fn (some e)).map (fun a => ((a, alias), r'))
+                  match parseExpr s r with
+                  | some (e, alias :: r', s') => (parseAggFn fn (some e)).map (fun a => ((a, alias), r', s'))
                   | _ => none
                 | [] => none
-              match parseN item k r1 with
-              | some (aggs, r2) => (parsePlan r2).map (fun (p, r3) => (.aggregate names aggs p, r3))
+              match parseN item k subs r1 with
+              | some (aggs, r2, s2) => (parsePlan s2 r2).map (fun (p, r3, s3) => (.aggregate names aggs p, r3, s3))
               | none => none
             | none => none
           | [] => none
@@ -162,19 +179,37 @@ partial def parsePlan : List String → Option (P × List String)
     | "union" =>
       match ts with
       | all :: r0 =>
-        match parsePlan r0 with
-        | some (l, r1) => (parsePlan r1).map (fun (r, r2) => (.union (all == "all") l r, r2))
+        match parsePlan subs r0 with
+        | some (l, r1, s1) => (parsePlan s1 r1).map (fun (r, r2, s2) => (.union (all == "all") l r, r2, s2))
         | none => none
       | [] => none
     | "cart" =>
-      match parsePlan ts with
-      | some (l, r1) => (parsePlan r1).map (fun (r, r2) => (.cartesian l r, r2))
+      match parsePlan subs ts with
+      | some (l, r1, s1) => (parsePlan s1 r1).map (fun (r, r2, s2) => (.cartesian l r, r2, s2))
       | none => none
     | "apply" =>
-      match parsePlan ts with
-      | some (inp, r1) => (parsePlan r1).map (fun (sub, r2) => (.apply inp sub, r2))
+      match parsePlan subs ts with
+      | some (inp, r1, s1) => (parsePlan s1 r1).map (fun (sub, r2, s2) => (.apply inp sub, r2, s2))
       | none => none
     | _ => none
+end
+
+/-- how the EXISTS subqueries inside expressions answer: run the subquery on the outer row, its first
+    item decides (query_api.rs exists_subquery_has_rows); nesting depth bounded by the fuel -/
+def exFn (Q : Quirks) (subs : Subs) : Nat → (String → Nat → Option DErr) → ExFn
+  | 0, _ => fun _ _ _ => .has false
+  | f + 1, coll => fun i env row =>
+    match subs[i]? with
+    | none => .has false
+    | some sub =>
+      let S := dsemX (exFn Q subs f)
+      let L : LimEnv DErr := { (LimEnv.unlimited : LimEnv DErr) with coll := coll }
+      match (runL S Q L (.exec i .root) (S.bind env row) sub).head? with
+      | none => .has false
+      | some (.ok _) => .has true
+      | some (.error e) => if Q.existsSwallowsErr then .swallowed else .failed e
+
+def semOf (Q : Quirks) (subs : Subs) : Sem DE DRow DV DErr (List DV) DAgg := dsemX (exFn Q subs 4)
 
 /-! ### printing -/
 
@@ -232,6 +267,8 @@ def csem (classes : Array Char) : Sem PK Nat Truth DErr Nat Unit where
            | .base => t
            | .not => t.not
            | .isNull => t.isNull)
+  park _ _ _ _ := none
+  aggPark _ _ _ _ := none
   truth t := t
   listView _ := .scalar
   empty := 0
@@ -259,11 +296,13 @@ def step (_ : Unit) (ws : List String) : Unit × String × String × String :=
   | "q" :: rest =>
     match splitSemi rest with
     | _ :: planToks :: _ =>
-      match parsePlan planToks with
-      | some (p, []) =>
-        let r := execute dsem Quirks.current .unlimited [] p
-        let cnt := emittedRows dsem Quirks.current .unlimited [] p
-        let spec := match execute dsem Quirks.repaired .unlimited [] p with
+      match parsePlan #[] planToks with
+      | some (p, [], subs) =>
+        let S := semOf Quirks.current subs
+        let r := execute S Quirks.current .unlimited [] p
+        -- the row counter is compared only where no subquery runs inside an expression
+        let cnt := if subs.isEmpty then toString (emittedRows S Quirks.current .unlimited [] p) else "-"
+        let spec := match execute (semOf Quirks.repaired subs) Quirks.repaired .unlimited [] p with
           | .error _ => anyErrClass
           | .ok _ => "-"
         ((), showOutcome r ++ s!" | rows={cnt}", spec, "")
@@ -272,13 +311,14 @@ def step (_ : Unit) (ws : List String) : Unit × String × String × String :=
   | "lim" :: mr :: mc :: ma :: rest =>
     match splitSemi rest with
     | _ :: planToks :: _ =>
-      match parsePlan planToks with
-      | some (p, []) =>
+      match parsePlan #[] planToks with
+      | some (p, [], subs) =>
+        let S := semOf Quirks.current subs
         let o : Opts := ⟨numOrMax mr, numOrMax mc, 0, numOrMax ma⟩
-        let unl := execute dsem Quirks.current .unlimited [] p
-        let cnt := emittedRows dsem Quirks.current .unlimited [] p
+        let unl := execute S Quirks.current .unlimited [] p
+        let cnt := emittedRows S Quirks.current .unlimited [] p
         -- size checks are exact; the row budget fires iff the global counter exceeds it
-        let sized := execute dsem Quirks.current (LimEnv.ofOpts DErr.limit o never never) [] p
+        let sized := execute S Quirks.current (LimEnv.ofOpts DErr.limit o never never) [] p
         let lim : Except DErr (List DRow) :=
           if cnt > rowLimitFor o "" then .error (.limit .rows) else sized
         let rel :=
@@ -286,7 +326,8 @@ def step (_ : Unit) (ws : List String) : Unit × String × String × String :=
           else match lim with
             | .error (.limit _) => "limit"
             | _ => "ALTERED"
-        ((), s!"{rel} | lim={showOutcomeL lim} unl={showOutcomeL unl} rows={cnt}", "complete/limit", "")
+        let cntS := if subs.isEmpty then toString cnt else "-"
+        ((), s!"{rel} | lim={showOutcomeL lim} unl={showOutcomeL unl} rows={cntS}", "complete/limit", "")
       | _ => ((), "bad-plan", "-", "")
     | _ => ((), "bad-op", "-", "")
   | "limt" :: _ => ((), "ok", "ok", "")
